@@ -1,11 +1,15 @@
 import Cppcms.Common
 import Cppcms.C19.Model
 import Cppcms.C19.Spec
+import Cppcms.C19.JsonC11
 /-! Line-protocol driver for C19 (same protocol as `harness/c19.cpp`); `J` lines evaluate the
 property predicates of `Spec.lean` on outputs produced by the implementation. -/
 open Cppcms Cppcms.C19
 
 namespace Cppcms.C19.Driver
+
+/-- `json::value` members are handled by C11's executable model (binary64 conversions `F64.ops`) -/
+instance : JsonCodec := c11Codec C11.F64.ops
 
 /-- type words in prefix notation (see harness/c19.cpp) -/
 def parseTy : Nat → List String → Option (Ty × List String)
@@ -45,6 +49,10 @@ def parseTy : Nat → List String → Option (Ty × List String)
     | "M" => bin .map
     | "P" => bin .pair
     | "X" => bin .pair
+    | "j" => some (.json, rest)
+    | "H" => un .ptr
+    | "K" => un .ptr
+    | "I" => un .ptr
     | "W" => un .mset
     | "N" => bin .mmap
     | _ =>
@@ -143,6 +151,12 @@ def parseVal (norm : Bool) : (ty : Ty) → List String → Option (Val ty × Lis
       | none => none)
     | [] => none
   | .arr t n, toks => parseN (parseVal norm t) n toks
+  | .json, toks => match toks with
+    | "ju" :: r => some ((C11.Value.undef : C11.Value Nat), r)
+    | t :: r => (match tagged 'j' t with
+      | some text => (match C11.parse C11.F64.ops text with | some v => some (v, r) | none => none)
+      | none => none)
+    | [] => none
 
 def rawHex (bs : Bytes) : String :=
   String.ofList (bs.flatMap fun b => [hexChar (b.toNat / 16), hexChar (b.toNat % 16)])
@@ -161,12 +175,16 @@ def dumpVal : (ty : Ty) → Val ty → List String
   | .mset t, v => s!"n{v.length}" :: v.flatMap (dumpVal t)
   | .mmap k w, v => s!"n{v.length}" :: v.flatMap (fun x => dumpVal k x.1 ++ dumpVal w x.2)
   | .arr t _, v => v.flatMap (dumpVal t)
+  | .json, v => match (v : C11.Value Nat) with
+    | .undef => ["ju"]
+    | w => ["j" ++ rawHex ((C11.save C11.F64.ops false w).getD [])]
 
 def errStr : Err → String
   | .eof => "err eof"
   | .hdr => "err hdr"
   | .size => "err size"
   | .len => "err len"
+  | .json => "err json"
 
 def parseValAll (ty : Ty) (toks : List String) (norm : Bool := true) : Option (Val ty) :=
   match parseVal norm ty toks with
@@ -216,11 +234,12 @@ def step (_ : Unit) (line : String) : Unit × String :=
       | some ty =>
         if op == "save" || op == "ssave" then
           match parseValAll ty rest with
-          | some v => toHex (save ty v)
+          | some v => (match saveE ty v with | some bs => toHex bs | none => "throw")
           | none => "bad-op"
         else if op == "rt" || op == "srt" || op == "crt" || op == "zrt" then   -- crt/zrt: cache / session store_data + fetch_data
           match parseValAll ty rest with
           | some v =>
+            if !savable ty v then "throw" else
             let b := save ty v
             (match loadArchive ty b with
             | .ok w s => join (["ok"] ++ dumpVal ty w ++ (if op == "rt" then [s!"eof={boolStr (eof b s)}"] else []))
